@@ -420,3 +420,39 @@ def must_pass(fn, target_nid, via_events):
             prev[s_] = x
             q.append(s_)
     return True, []
+
+
+def between_only_via(fn, a, b, atom_pol):
+    """every path from event a to event b (a == b: every cycle through a) takes, for some condition whose stripped atom gets a polarity
+    from atom_pol(fn, atom) (True / False; None = not a licensing atom), the edge of that polarity.  Returns (ok, path, n_atoms)."""
+    removed = set()
+    n = 0
+    for blk_id, blk in fn.blocks.items():
+        if "cond" not in blk or len(blk["succ"]) != 2:
+            continue
+        atom, pol = strip_cond(fn, blk["cond"])
+        if atom is None or atom < 0:
+            continue
+        want = atom_pol(fn, atom)
+        if want is None:
+            continue
+        n += 1
+        t, f = blk["succ"][0], blk["succ"][1]
+        if not pol:
+            t, f = f, t
+        lic = t if want else f
+        if lic is not None:
+            removed.add((blk_id, lic))
+    pos = fn.pos()
+    pa, pb = pos.get(a), pos.get(b)
+    if pa is None or pb is None:
+        return True, [], n
+    if pa[0] == pb[0] and pa[1] < pb[1]:
+        return False, [pa[0]], n
+    for s in fn.blocks[pa[0]]["succ"]:
+        if s is None or (pa[0], s) in removed:
+            continue
+        p = _path(fn, s, pb[0], removed)
+        if p is not None:
+            return False, [pa[0]] + p, n
+    return True, [], n
